@@ -10,7 +10,7 @@
 (*                          last (end), containing the text; with `end` no code token       *)
 (*                          changes line, with `start` all shift by the same amount         *)
 (*   code             (C04/C12 helpers) same code tokens                                    *)
-EXTENDS LuaLex, Bytes, Json, IOUtils
+EXTENDS LuaLex, Bytes, Json, IOUtils, FiniteSets
 Obs == ndJsonDeserialize(IOEnv.OBS)
 VARIABLE i
 \* W chains of observations (i, i + W, i + 2W, ...): successor states are evaluated by TLC's workers in parallel,
@@ -35,6 +35,24 @@ MatchesPat(pat, lexeme) == IF pat.anchored = 1 THEN HasPrefix(lexeme, pat.lit) E
 Kept(o, lexeme) == \E k \in 1..Len(o.except) : MatchesPat(o.except[k], lexeme)
 RECURSIVE Filter(_, _, _)
 Filter(o, cs, j) == IF j > Len(cs) THEN <<>> ELSE (IF Kept(o, cs[j]) THEN <<cs[j]>> ELSE <<>>) \o Filter(o, cs, j + 1)
+
+\* ---- C04: markers.  A string token whose value is L<digits>... claims to sit on line <digits> (+ a uniform shift)
+IsDig(c) == c >= 48 /\ c <= 57
+RECURSIVE DigitsVal(_, _, _)
+DigitsVal(v, k, acc) == IF k <= Len(v) /\ IsDig(v[k]) THEN DigitsVal(v, k + 1, acc * 10 + (v[k] - 48)) ELSE acc
+IsMarker(t) == t.k = "str" /\ Len(t.v) >= 2 /\ t.v[1] = 76 /\ IsDig(t.v[2])
+JudgeMarkers(o) ==
+  LET b == Lex(o.outb, TRUE) IN
+  LET okrun == o.status = "ok" IN
+  LET c == IF okrun /\ b.ok THEN Code(b) ELSE <<>> IN
+  LET lines == LinesAcc(o.outb, c, 1, 1, 1, <<>>) IN
+  LET ms == {j \in 1..Len(c) : IsMarker(c[j])} IN
+  LET off == {j \in ms : lines[j] # DigitsVal(c[j].v, 2, 0) + o.shift} IN
+  LET first == IF off = {} THEN 0 ELSE CHOOSE j \in off : \A k \in off : j <= k IN
+  [id |-> o.id, kind |-> o.kind, status |-> o.status, lex_in |-> TRUE, lex_out |-> b.ok, identical |-> FALSE,
+   code_equal |-> TRUE, comments_ok |-> TRUE, lines_ok |-> okrun /\ b.ok /\ off = {},
+   shift |-> IF first = 0 THEN 0 ELSE lines[first] - DigitsVal(c[first].v, 2, 0),
+   ok |-> okrun /\ b.ok /\ off = {}, ncode |-> Cardinality(ms), ncomments |-> IF first = 0 THEN 0 ELSE DigitsVal(c[first].v, 2, 0)]
 
 JudgeIdentity(o) ==
   LET same == o.status = "ok" /\ o.srcb = o.outb IN
@@ -69,6 +87,6 @@ JudgeLex(o) ==
   [id |-> o.id, kind |-> o.kind, status |-> o.status, lex_in |-> a.ok, lex_out |-> b.ok, identical |-> same,
    code_equal |-> code, comments_ok |-> comments, lines_ok |-> lines, shift |-> shift, ok |-> ok,
    ncode |-> Len(Code(a)), ncomments |-> Len(ca)]
-Judge(o) == IF o.kind = "identity" THEN JudgeIdentity(o) ELSE JudgeLex(o)
+Judge(o) == IF o.kind = "identity" THEN JudgeIdentity(o) ELSE IF o.kind = "markers" THEN JudgeMarkers(o) ELSE JudgeLex(o)
 Emit == PrintT("VERDICT " \o ToJson(Judge(Obs[i])))
 =============================================================================
